@@ -4,7 +4,9 @@ set -u
 patch="$1"; id="$2"; tier="${3:-quick}"
 if [ -n "$(git -C /repo status --porcelain)" ]; then echo "/repo not clean"; exit 3; fi
 git -C /repo apply "$patch" || { echo "patch does not apply"; exit 3; }
-trap 'git -C /repo checkout -- . ; git -C /repo clean -fdq' EXIT
+ev=/verif/evidence/$id.json; bak=$(mktemp); [ -f "$ev" ] && cp "$ev" "$bak"
+# undo the change and put back the evidence file of the unchanged tree (a run on a changed tree is not evidence)
+trap 'git -C /repo checkout -- . ; git -C /repo clean -fdq; if [ -s "$bak" ]; then cp "$bak" "$ev"; else rm -f "$ev"; fi; rm -f "$bak"' EXIT
 VERIF_REPLAY_DIR=${VERIF_REPLAY_DIR:-} /verif/check "$id" "$tier"
 rc=$?
 echo "tryseed: $patch on $id -> exit $rc"
